@@ -30,8 +30,39 @@ use std::sync::Arc;
 use std::time::Duration;
 use tokio::sync::{mpsc, watch};
 
-const SSRC_IN: u32 = 0x0C14_0001; // inbound media stream (listener registered)
-const SSRC_OUT: u32 = 0x0C14_0002; // locally originated media
+// Every SSRC the harness uses carries the behaviour's nonce (and, for locally originated traffic, the step),
+// and SSRCs stay readable on the wire whether or not a datagram is protected: a captured datagram can
+// therefore be attributed to the behaviour and step that produced it from its content, independently of
+// arrival order (the kernel's loopback path can reorder datagrams of one socket when the sending thread
+// migrates between CPUs; observed under load).
+fn ssrc_in(nonce: u16) -> u32 {
+    0x0A00_0000 | (nonce as u32) << 8 | 1 // inbound media stream (listener registered)
+}
+fn ssrc_out(nonce: u16, step: usize) -> u32 {
+    0x0C00_0000 | (nonce as u32) << 8 | (step as u32 & 0xFF) // locally originated RTP / RTCP
+}
+const BRIDGE_OFFSET: u32 = 0x0100_0000; // ssrc_in + offset = 0x0B.. : forwarded by the bridge
+fn ssrc_bridged_fixed(nonce: u16) -> u32 {
+    0x0B00_0000 | (nonce as u32) << 8 | 0xFF
+}
+fn ssrc_rtcp_in(nonce: u16, step: usize) -> u32 {
+    0x1400_0000 | (nonce as u32) << 8 | (step as u32 & 0xFF)
+}
+/// (nonce, step if it is encoded) of a datagram on the wire, from its clear header.
+fn wire_identity(d: &[u8]) -> Option<(u16, Option<usize>)> {
+    let is_rtcp = d.len() >= 2 && (192..=223).contains(&d[1]);
+    let off = if is_rtcp { 4 } else { 8 };
+    if d.len() < off + 4 {
+        return None;
+    }
+    let ssrc = u32::from_be_bytes(d[off..off + 4].try_into().unwrap());
+    let nonce = (ssrc >> 8) as u16;
+    match ssrc >> 24 {
+        0x0C => Some((nonce, Some((ssrc & 0xFF) as usize))),
+        0x0B => Some((nonce, None)),
+        _ => None,
+    }
+}
 const IN_MARK: &[u8] = b"C14-INBOUND-CLEARTEXT:";
 const OUT_MARK: &[u8] = b"C14-OUTBOUND-CLEARTEXT:";
 const RTCP_MARK: u32 = 0xC14C_14C1; // recognisable word inside RTCP bodies
@@ -101,6 +132,16 @@ impl Net {
         Net { sock: [s0, s1], side: [d0, d1], peer: [p0, p1], peer_addr: pa, sentinel: 0 }
     }
 
+    /// Fresh capture sockets: nothing emitted during an earlier behaviour can arrive at them.
+    fn renew_peers(&mut self) {
+        for t in 0..2 {
+            let p = std::net::UdpSocket::bind("127.0.0.1:0").unwrap_or_else(|e| tool_error(&format!("bind: {e}")));
+            p.set_read_timeout(Some(Duration::from_secs(20))).unwrap();
+            self.peer_addr[t] = p.local_addr().unwrap();
+            self.peer[t] = p;
+        }
+    }
+
     /// Everything transport `t` put on the wire since the previous call.
     fn capture(&mut self, t: usize) -> Vec<Vec<u8>> {
         self.sentinel += 1;
@@ -151,6 +192,7 @@ struct World {
     verifier: [Vec<SrtpSession>; 2],
     /// the remote peer of X: protects inbound traffic with X's receive keys, per generation
     peer_tx: Vec<SrtpSession>,
+    nonce: u16,
     out_seq: u16,
     in_seq: u16,
     /// inbound packets sent so far: (seq or rtcp sender ssrc) -> step index
@@ -159,7 +201,7 @@ struct World {
 }
 
 impl World {
-    fn new(net: &Net, req: [bool; 2], profile: SrtpProfile, kseed: u64, rng: &mut Rng) -> World {
+    fn new(net: &Net, req: [bool; 2], profile: SrtpProfile, kseed: u64, nonce: u16, rng: &mut Rng) -> World {
         let mut trs = Vec::new();
         let mut conns = Vec::new();
         let mut txs = Vec::new();
@@ -176,7 +218,7 @@ impl World {
         let (lst_tx, lst_rx) = mpsc::channel(64);
         let (prov_tx, prov_rx) = mpsc::channel(64);
         let (rtcp_tx, rtcp_rx) = mpsc::channel(64);
-        trs[0].register_listener_sync(SSRC_IN, lst_tx);
+        trs[0].register_listener_sync(ssrc_in(nonce), lst_tx);
         trs[0].register_provisional_listener(prov_tx);
         trs[0].register_rtcp_listener(rtcp_tx);
         trs[0].add_observer(obs[0].clone());
@@ -194,6 +236,7 @@ impl World {
             gen_: [0, 0],
             verifier: [Vec::new(), Vec::new()],
             peer_tx: Vec::new(),
+            nonce,
             out_seq: 1000 + rng.below(50000) as u16,
             in_seq: 100 + rng.below(50000) as u16,
             in_by_seq: HashMap::new(),
@@ -222,17 +265,22 @@ impl World {
 
 // ------------------------------------------------------------------------------- packet builders
 
-fn payload(mark: &[u8], step: usize, rng: &mut Rng) -> Vec<u8> {
+fn payload(mark: &[u8], nonce: u16, step: usize, rng: &mut Rng) -> Vec<u8> {
     let mut p = mark.to_vec();
-    p.extend_from_slice(format!("{step:04}").as_bytes());
+    p.extend_from_slice(format!("{nonce:04x}{step:04}").as_bytes());
     let n = rng.below(40) as usize;
     p.extend(rng.bytes(n));
     p
 }
 
-fn step_of_payload(mark: &[u8], p: &[u8]) -> Option<usize> {
-    if p.len() >= mark.len() + 4 && &p[..mark.len()] == mark {
-        std::str::from_utf8(&p[mark.len()..mark.len() + 4]).ok()?.parse().ok()
+/// step encoded in a payload of this behaviour (None for foreign / unreadable payloads)
+fn step_of_payload(mark: &[u8], nonce: u16, p: &[u8]) -> Option<usize> {
+    if p.len() >= mark.len() + 8 && &p[..mark.len()] == mark {
+        let n = u16::from_str_radix(std::str::from_utf8(&p[mark.len()..mark.len() + 4]).ok()?, 16).ok()?;
+        if n != nonce {
+            return None;
+        }
+        std::str::from_utf8(&p[mark.len() + 4..mark.len() + 8]).ok()?.parse().ok()
     } else {
         None
     }
@@ -242,7 +290,7 @@ fn contains(hay: &[u8], needle: &[u8]) -> bool {
     hay.windows(needle.len()).any(|w| w == needle)
 }
 
-fn rtp_packet(ssrc: u32, seq: u16, mark: &[u8], step: usize, rng: &mut Rng) -> RtpPacket {
+fn rtp_packet(ssrc: u32, seq: u16, mark: &[u8], nonce: u16, step: usize, rng: &mut Rng) -> RtpPacket {
     // payload types outside 64..=95 so that marker|PT never falls into the RTCP range
     let pt = [0u8, 8, 96, 111, 126][rng.below(5) as usize];
     let mut h = RtpHeader::new(pt, seq, rng.next() as u32, ssrc);
@@ -250,7 +298,7 @@ fn rtp_packet(ssrc: u32, seq: u16, mark: &[u8], step: usize, rng: &mut Rng) -> R
     if rng.below(4) == 0 {
         let _ = h.set_extension(3, &[1, 2, 3]);
     }
-    RtpPacket::new(h, payload(mark, step, rng))
+    RtpPacket::new(h, payload(mark, nonce, step, rng))
 }
 
 fn report_block() -> ReportBlock {
@@ -317,13 +365,14 @@ fn inbound(w: &mut World, rtcp: bool, auth: &str, step: usize, rng: &mut Rng) ->
     let cur = w.gen_[0].max(1); // before installation the peer already uses the keys that will be installed
     let seq = w.in_seq;
     w.in_seq = w.in_seq.wrapping_add(1);
-    let rtcp_ssrc = 0x1400_0000 + step as u32;
+    let nonce = w.nonce;
+    let rtcp_ssrc = ssrc_rtcp_in(nonce, step);
     if rtcp {
         w.in_by_rtcp_ssrc.insert(rtcp_ssrc, step);
     } else {
         w.in_by_seq.insert(seq, step);
     }
-    let clear_rtp = |rng: &mut Rng| rtp_packet(SSRC_IN, seq, IN_MARK, step, rng);
+    let clear_rtp = |rng: &mut Rng| rtp_packet(ssrc_in(nonce), seq, IN_MARK, nonce, step, rng);
     let profile = w.profile;
     let kseed = w.kseed;
     match (rtcp, auth) {
@@ -456,7 +505,7 @@ fn classify(w: &mut World, t: usize, d: &[u8]) -> (char, Value) {
 /// The inbound packet (step index) a bridged datagram on target t's wire carries.
 fn bridged_origin(w: &mut World, t: usize, d: &[u8]) -> Option<usize> {
     if let Ok(p) = RtpPacket::parse(d) {
-        if let Some(s) = step_of_payload(IN_MARK, &p.payload) {
+        if let Some(s) = step_of_payload(IN_MARK, w.nonce, &p.payload) {
             return Some(s);
         }
     }
@@ -465,7 +514,7 @@ fn bridged_origin(w: &mut World, t: usize, d: &[u8]) -> Option<usize> {
         let mut v = session(profile, keying(w.kseed, 9, 9, 9), keying(w.kseed, t, g, 0));
         if let Ok(sp) = SrtpPacket::parse(bytes::BytesMut::from(d)) {
             if let Ok(Ok(p)) = catch(|| v.unprotect_rtp(sp)) {
-                if let Some(s) = step_of_payload(IN_MARK, &p.payload) {
+                if let Some(s) = step_of_payload(IN_MARK, w.nonce, &p.payload) {
                     return Some(s);
                 }
             }
@@ -520,7 +569,9 @@ async fn run_behaviour(net: &mut Net, case: &Value, idx: usize, seed: u64, out: 
         None => PROFILES[rng.below(3) as usize],
     };
     let kseed = rng.next();
-    let mut w = World::new(net, req, profile, kseed, &mut rng);
+    let nonce = idx as u16;
+    net.renew_peers();
+    let mut w = World::new(net, req, profile, kseed, nonce, &mut rng);
     let mut ads: Vec<bool> = Vec::new(); // per step: may this step's inbound packet be delivered (C14)?
     let mut mbuf = Vec::new();
     let mut diverged = false;
@@ -544,15 +595,15 @@ async fn run_behaviour(net: &mut Net, case: &Value, idx: usize, seed: u64, out: 
             "KX" => Act::Keys(0),
             "KY" => Act::Keys(1),
             "S" | "SR" => {
-                let p = rtp_packet(SSRC_OUT, w.out_seq, OUT_MARK, k, &mut rng);
+                let p = rtp_packet(ssrc_out(nonce, k), w.out_seq, OUT_MARK, nonce, k, &mut rng);
                 w.out_seq = w.out_seq.wrapping_add(1);
                 if st.op == "S" { Act::SendRaw(p.marshal().unwrap()) } else { Act::SendRtp(p) }
             }
-            "SC" => Act::SendRtcp(rtcp_packets(SSRC_OUT, &mut rng)),
+            "SC" => Act::SendRtcp(rtcp_packets(ssrc_out(nonce, k), &mut rng)),
             "BYE" | "CL" => Act::Bye {
                 clear: st.op == "CL",
                 pk: RtcpPacket::Goodbye(Goodbye {
-                    sources: vec![SSRC_OUT, RTCP_MARK],
+                    sources: vec![ssrc_out(nonce, k), RTCP_MARK],
                     reason: Some("C14-OUTBOUND-CLEARTEXT:bye".into()),
                 }),
             },
@@ -570,8 +621,8 @@ async fn run_behaviour(net: &mut Net, case: &Value, idx: usize, seed: u64, out: 
             "BX" | "BY" => Act::Bridge(
                 if st.op == "BX" { 0 } else { 1 },
                 RtpRewriteBridgeParams {
-                    ssrc_offset: 0x100 + rng.below(0x1000) as u32,
-                    fixed_out_ssrc: if rng.below(2) == 0 { Some(0x0C14_0B00 + rng.below(16) as u32) } else { None },
+                    ssrc_offset: BRIDGE_OFFSET,
+                    fixed_out_ssrc: if rng.below(2) == 0 { Some(ssrc_bridged_fixed(nonce)) } else { None },
                     payload_type: if rng.below(2) == 0 { Some(100) } else { None },
                     dtmf_payload_type: None,
                     initial_sequence_number: Some(2000 + rng.below(40000) as u16),
@@ -625,22 +676,38 @@ async fn run_behaviour(net: &mut Net, case: &Value, idx: usize, seed: u64, out: 
         let mut delivered: Vec<(char, Option<usize>)> = Vec::new(); // (sink, origin step)
         for t in 0..2 {
             for d in net.capture(t) {
+                // attribute the datagram to the behaviour / step that produced it (content, not arrival order)
+                let origin_step = match wire_identity(&d) {
+                    Some((n, _)) if n != nonce => {
+                        stats.stale += 1; // left over from an earlier behaviour (cannot reach fresh sockets; belt and braces)
+                        continue;
+                    }
+                    Some((_, Some(s))) if s < steps.len() => s,
+                    Some((_, None)) => bridged_origin(&mut w, t, &d).unwrap_or(k),
+                    _ => k,
+                };
+                if origin_step != k {
+                    stats.late += 1;
+                }
+                let judged = &steps[origin_step.min(k)];
                 let (cls, detail) = classify(&mut w, t, &d);
                 observed_emission.push_str(TNAME[t]);
                 observed_emission.push(cls);
-                wire_detail.push(json!({"tr": TNAME[t], "cls": cls.to_string(), "detail": detail, "len": d.len()}));
+                wire_detail.push(json!({"tr": TNAME[t], "cls": cls.to_string(), "detail": detail, "len": d.len(),
+                                        "origin_step": origin_step + 1}));
                 stats.datagrams += 1;
-                let allowed = match st.aw[t] {
+                let allowed = match judged.aw[t] {
                     0 => "",
                     1 => "p",
                     _ => "pc",
                 };
                 if !allowed.contains(cls) {
-                    step_divs.push(json!({"rule": st.rw[t], "field": "wire", "tr": TNAME[t], "allowed": allowed,
-                                          "observed": cls.to_string(), "detail": detail}));
+                    step_divs.push(json!({"rule": judged.rw[t], "field": "wire", "tr": TNAME[t], "allowed": allowed,
+                                          "observed": cls.to_string(), "detail": detail, "origin_step": origin_step + 1,
+                                          "origin_op": judged.op}));
                 }
-                if is_recv {
-                    // a datagram leaving during a receive step was forwarded by the bridge fast path
+                if steps[origin_step.min(k)].op.starts_with('R') {
+                    // a datagram caused by a receive step was forwarded by the bridge fast path
                     delivered.push(('b', bridged_origin(&mut w, t, &d)));
                 }
             }
@@ -648,10 +715,10 @@ async fn run_behaviour(net: &mut Net, case: &Value, idx: usize, seed: u64, out: 
 
         // ---- sinks
         while let Ok((p, _)) = w.lst_rx.try_recv() {
-            delivered.push(('l', step_of_payload(IN_MARK, &p.payload).or(w.in_by_seq.get(&p.header.sequence_number).copied())));
+            delivered.push(('l', step_of_payload(IN_MARK, nonce, &p.payload).or(w.in_by_seq.get(&p.header.sequence_number).copied())));
         }
         while let Ok((p, _)) = w.prov_rx.try_recv() {
-            delivered.push(('l', step_of_payload(IN_MARK, &p.payload).or(w.in_by_seq.get(&p.header.sequence_number).copied())));
+            delivered.push(('l', step_of_payload(IN_MARK, nonce, &p.payload).or(w.in_by_seq.get(&p.header.sequence_number).copied())));
         }
         while let Ok(pk) = w.rtcp_rx.try_recv() {
             let origin = pk.iter().find_map(rtcp_sender_ssrc).and_then(|s| w.in_by_rtcp_ssrc.get(&s).copied());
@@ -659,14 +726,14 @@ async fn run_behaviour(net: &mut Net, case: &Value, idx: usize, seed: u64, out: 
         }
         for t in 0..2 {
             for p in std::mem::take(&mut *w.obs[t].ingress.lock()) {
-                delivered.push(('o', step_of_payload(IN_MARK, &p.payload).or(w.in_by_seq.get(&p.header.sequence_number).copied())));
+                delivered.push(('o', step_of_payload(IN_MARK, nonce, &p.payload).or(w.in_by_seq.get(&p.header.sequence_number).copied())));
             }
             for p in std::mem::take(&mut *w.obs[t].egress.lock()) {
                 // locally originated packets (send_rtp) pass the egress observer too: not a delivery
-                if step_of_payload(OUT_MARK, &p.payload).is_some() {
+                if step_of_payload(OUT_MARK, nonce, &p.payload).is_some() {
                     continue;
                 }
-                delivered.push(('t', step_of_payload(IN_MARK, &p.payload)));
+                delivered.push(('t', step_of_payload(IN_MARK, nonce, &p.payload)));
             }
         }
         let mut observed_deliveries: Vec<char> = delivered.iter().map(|d| d.0).collect();
@@ -732,6 +799,8 @@ struct Stats {
     datagrams: u64,
     deliveries: u64,
     diverged: u64,
+    late: u64,
+    stale: u64,
 }
 
 /// Run a future, turning a panic inside the code under test into data.
@@ -793,7 +862,8 @@ fn main() {
             run_behaviour(&mut net, &case, i, seed, &mut out, &mut stats).await;
         }
         out.push(&json!({"type": "summary", "behaviours": stats.behaviours, "steps": stats.steps,
-                         "datagrams": stats.datagrams, "deliveries": stats.deliveries, "diverged": stats.diverged}));
+                         "datagrams": stats.datagrams, "deliveries": stats.deliveries, "diverged": stats.diverged,
+                         "late": stats.late, "stale": stats.stale}));
         out.finish();
     });
 }
